@@ -3125,6 +3125,11 @@ tsk_treeseq_two_branch_count_stat(const tsk_treeseq_t *self, tsk_size_t state_di
     if (ret != 0) {
         goto out;
     }
+    if (n_rows == 0 || n_cols == 0) {
+        /* row_indexes[0] / col_indexes[0] are read below */
+        ret = tsk_trace_error(TSK_ERR_BAD_PARAM_VALUE);
+        goto out;
+    }
     ret = positions_to_tree_indexes(self, row_positions, n_rows, &row_indexes);
     if (ret != 0) {
         goto out;
